@@ -18,6 +18,7 @@ EXPLANATION = (
     "backward-thread attachment (exactly-two-stacks guard, candidate order '## backward ##' then 'ProfilerStep#' decided by the events PRESENT on this rank's main thread, re-parenting "
     "iff ts >= parent.ts and end <= parent.end among the root's children), of the launch->activity link direction, and the end = ts + dur typestate for the end reads. The code cannot "
     "be executed under the installed pandas (np.unique on an object array); this analysis does not need to."
+    " Later additions: typestate build -> link -> publish -> normalise, recompute before publish, rank-scoped stack selection, complete re-parenting move, kernel-info rows include event id 0."
 )
 CS = "hta.common.trace_call_stack"
 CG = "hta.common.trace_call_graph"
